@@ -20,6 +20,13 @@ type Trigger struct {
 	DlvSeq   uint64
 	// Held: (client, rid) pairs with a settled direct subscription when the trigger was delivered
 	Held []heldPair
+	// Pending: subscribe requests in flight when the trigger was delivered
+	Pending []pendingSub
+}
+
+type pendingSub struct {
+	c *Client
+	r *CReq
 }
 
 type heldPair struct {
@@ -94,6 +101,11 @@ func (s *Sim) triggerDelivered(t *Trigger) {
 		for _, rid := range sortedKeys(c.Direct) {
 			if c.Direct[rid] > 0 && t.affects(c, rid) && c.settled(rid) {
 				t.Held = append(t.Held, heldPair{c, rid})
+			}
+		}
+		for _, r := range c.ReqL {
+			if r.Action == "subscribe" && r.Resp == nil && r.Valid && t.affects(c, r.RID) {
+				t.Pending = append(t.Pending, pendingSub{c, r})
 			}
 		}
 	}
@@ -667,8 +679,52 @@ func (s *Sim) accessQuiescence() {
 		for _, hp := range t.Held {
 			s.checkRecheck(t, hp.c, hp.rid)
 		}
+		for _, ps := range t.Pending {
+			s.checkPendingSubscribe(t, ps.c, ps.r)
+		}
 	}
 	s.tokenResetQuiescence()
+}
+
+// checkPendingSubscribe is C06.a for a subscribe request that was in flight
+// when the trigger reached the gateway ("earlier pending access checks"): if it
+// ends with the connection directly subscribed, an access request sent after
+// the trigger (so with the then-current token and after the reaccess event or
+// reset) must exist; a verdict asked for before the trigger does not count.
+func (s *Sim) checkPendingSubscribe(t *Trigger, c *Client, r *CReq) {
+	if c.Tainted != "" || c.State != "open" || c.eofSeen() || c.Failed != "" {
+		return
+	}
+	rid := r.RID
+	if r.Resp == nil || r.Resp.Error != nil || c.Direct[rid] == 0 || c.Fuzzy[rid] {
+		return
+	}
+	for _, o := range c.ReqL {
+		if o != r && o.RID == rid && o.Seq > 0 && (o.Resp == nil || o.Resp.Seq > t.DlvSeq) {
+			// other requests on the rid around or after the trigger: their own
+			// checks and counts blur which subscription is meant
+			return
+		}
+	}
+	if _, gone := c.Revoked[rid]; gone {
+		return
+	}
+	if h := c.Cache[rid]; c.DeletedSeen[rid] || h == nil || h.Deleted || h.Ambiguous || h.Kind == 'e' {
+		return
+	}
+	name, query := splitRID(c.expandCID(rid))
+	s.stat("oracle.C06.a_pending", 1)
+	s.mu.Lock()
+	found := false
+	for _, q := range s.tr.reqs {
+		if q.Type == "access" && q.CIdx == c.CIdx && q.Name == name && q.Query == query && q.Seq > t.DlvSeq {
+			found = true
+		}
+	}
+	s.mu.Unlock()
+	if !found {
+		c.violate("C06", "a", "no-recheck-pending-subscribe", "client %s is directly subscribed to %s through request %d, which was in flight when a %s trigger was delivered at step %d; every access request for it was sent before the trigger and none followed", c.Name, rid, r.ID, t.Kind, t.DlvStep)
+	}
 }
 
 // checkRecheck is C06.a/C06.b for one (trigger, connection, rid).
